@@ -704,7 +704,15 @@ def check_diamond(case):
     t = datetime.datetime(2021, 3, 4, 10, 0, 0)
     with Patched(11):
         CLOCK.set_now(t)
-        if via in ('grow', 'grow-formula'):
+        if via in ('grow-placeholder', 'grow-placeholder-calc'):
+            # A1 starts as the one blank cell of a referenced rectangle (a placeholder node); the volatile formula is put
+            # into it by a second import on the finished model (added after seed c13-a-r3)
+            m = sut.ExcelModel().from_dict({Q + 'Z1': 1.0, Q + 'B1': 7.0, Q + 'X1': '=SUM(%sA1:B1)' % Q})
+            if via == 'grow-placeholder-calc':
+                m.calculate()
+            m.from_dict(d)
+            forms = dict(forms, X1=('A1', 7.0, None))
+        elif via in ('grow', 'grow-formula'):
             # the model is compiled once while it holds no volatile cell, then grows, then is compiled again
             first = {Q + 'Z1': 1.0, Q + 'Y1': '=%sZ1+1' % Q}
             if via == 'grow-formula':
@@ -742,6 +750,9 @@ def check_diamond(case):
             res = func(float(i))
             vals = dict(zip(['A1'] + sorted(forms), [sut.one(r) for r in res]))
             for k, (x, c, y) in forms.items():
+                if not isinstance(vals[x], float) or (y and not isinstance(vals[y], float)):
+                    fails.append(('snapshot|NOW|compile:indep|%s|%s' % (shape, via), 'call %d: %s reads %s = %r: not a number' % (i + 1, k, x, vals[x])))
+                    continue
                 exp = vals[x] + c + (vals[y] if y else 0.0)
                 if not (isinstance(vals[k], float) and abs(vals[k] - exp) < 1e-9):
                     fails.append(('snapshot|NOW|compile:indep|%s|%s' % (shape, via), 'call %d: %s = %r but its formula over the same call gives %r' % (i + 1, k, vals[k], exp)))
@@ -1091,5 +1102,5 @@ def parts(tier, seed):
                                    for lo, hi in [(-3.5, -1.5), (-7.9, -7.1), (-0.5, -0.2), (0.2, 3.7), (1.5, 9.5), (-9.5, 9.5), (-2.0, -1.0),
                                                   (2.5, 2.9), (-10.25, -0.75), (0.0, 0.9), (-1.5, 1.5), (3.0, 3.0), (-4.5, -4.5)]], 2, False),
         ('enum', 'diamonds', [{'k': 'diamond', 'shape': sh_, 'via': via} for sh_ in ('diamond', 'chain-fan', 'late-join')
-                             for via in ('orig', 'deepcopy', 'copy', 'dill', 'grow', 'grow-formula', 'recompile', 'calc-first')], 1, False),
+                             for via in ('orig', 'deepcopy', 'copy', 'dill', 'grow', 'grow-formula', 'recompile', 'calc-first', 'grow-placeholder', 'grow-placeholder-calc')], 1, False),
     ]
